@@ -40,6 +40,11 @@ def small_model(rng):
         m = models.split_hemispheres(1.0, [1.2] * rng.randint(0, 1), (0.0, 0.0) if rng.random() < 0.7 else (0.0, 1.0), [0.33], rng.choice([1, 1, 2]))
         m["info"]["topology"] = "split-zero"
         return m
+    if r < 0.40 and r >= 0.34:
+        # interfaces stored as two cap meshes: two different meshes separate the same two domains
+        n = rng.randint(1, 3); radii = [1.0]
+        for _ in range(n - 1): radii.insert(0, radii[0] * rng.uniform(0.6, 0.9))
+        return gd.capped_nested(radii, [rng.choice([1.0, 0.33, 0.0125]) for _ in range(n)], 1, rng.sample(range(n), rng.randint(1, n)), rng)
     if r < 0.34 and r >= 0.3:
         return gd.separate_conductors(rng, rng.randint(2, 3), rng.choice([0, 1]))
     if r < 0.3:
@@ -195,6 +200,11 @@ def own_relations(case, ints, floats):
     if D["status"] != 0: return bad
     nm = len(D["meshes"])
     # indices: bijection onto [0,N) for valid vertices + current-carrying triangles, barriers after, excluded -1
+    # OLD_ORDERING numbers vertex references mesh by mesh: old_ordering_bijection needs "no vertex referenced twice"; with
+    # shared vertices (multi-mesh interfaces) the later mesh overwrites the index (old_ordering_needs_disjoint_meshes,
+    # reproduces on the library) - the legacy ordering is then not judged
+    allrefs = [v for M in D["meshes"] for v in M["verts"]]
+    if case["old"] and len(set(allrefs)) != len(allrefs): return bad
     first = [i for i in D["vidx"] if i != -1]
     for M in D["meshes"]:
         if not M["cb"]: first += M["tidx"]
@@ -224,6 +234,21 @@ def own_relations(case, ints, floats):
                 bad.append(("indices", "%d of the %d vertices of the active mesh %d are excluded (index -1)" % (len(ex), len(M["verts"]), q))); break
     # (OLD_ORDERING numbers the vertex references of every mesh, isolated or not: documented in the model, not judged here)
     if not case["old"] and any(D["vidx"][v] != -1 for v in passive - active): bad.append(("indices", "a vertex referenced by isolated meshes only carries an unknown"))
+    # sigma / sigma_inv / indicator of a pair = sums over ALL the domains whose boundary contains both meshes
+    try:
+        doms = decode_domains(D["rest"], len(case["probes"])); nd_ = len(doms)
+        conds = floats[3 * nm * nm + nm: 3 * nm * nm + nm + nd_]
+        member = [set(mk for _, oms in bs for _, mk in oms) for bs in doms]
+        for i in range(nm):
+            for j in range(nm):
+                shared = [k for k in range(nd_) if i in member[k] and j in member[k]]
+                want = 0.0
+                for k in shared: want += conds[k]
+                if not feq(floats[3 * (i * nm + j)], want) or floats[3 * (i * nm + j) + 2] != float(len(shared)):
+                    bad.append(("pairs", "sigma/indicator of meshes (%d,%d) = %r/%r but they share %d domain(s) of total conductivity %r" % (i, j, floats[3 * (i * nm + j)], floats[3 * (i * nm + j) + 2], len(shared), want)))
+                    raise StopIteration
+    except StopIteration: pass
+    except Exception: pass
     seen = set()
     for i, j, o in D["pairs"]:
         k = (min(i, j), max(i, j))
@@ -396,6 +421,8 @@ def main(replay=None):
                 wm = models.split_hemispheres(1.0, [1.15], (1.0, 0.33), [0.0125], 1); wm["info"]["topology"] = "split"; return wm
             if name == "split-zero":
                 wm = models.split_hemispheres(1.0, [1.2], (0.0, 0.0), [0.33], 1); wm["info"]["topology"] = "split-zero"; return wm
+            if name == "capped":
+                return gd.capped_nested([0.7, 1.0], [1.0, 0.33], 1, [0, 1], cr)
             if name == "outer-zero":
                 wm = models.nested([0.7, 0.85, 1.0], [1.0, 0.0, 0.0], 0); wm["info"]["topology"] = "nested-zero"; return wm
             if name == "flips":
